@@ -18,9 +18,11 @@ import (
 	"bytes"
 	"encoding/binary"
 	"fmt"
+	"net/http"
+	"net/http/httptest"
 	"sort"
-	"strconv"
 	"strings"
+	"sync"
 	"testing"
 
 	"pgregory.net/rapid"
@@ -30,6 +32,7 @@ import (
 	"verifharness/internal/agx"
 	"verifharness/internal/core"
 	"verifharness/internal/demonref"
+	"verifharness/internal/svcx"
 	"verifharness/internal/tpx"
 )
 
@@ -55,6 +58,8 @@ type OpC struct {
 	NewKey   bool   `json:"new_key,omitempty"`
 	V6       bool   `json:"v6,omitempty"`
 	TPType   int    `json:"tp_type,omitempty"` // tpreg tpreq: which registered third-party agent type (mod their number)
+	Repr     *ReprC `json:"repr,omitempty"`    // tpreg tpreq: how the service script writes the AgentRegister message (nil: the plain way)
+	XFF      string `json:"xff,omitempty"`     // reg rereg: value of the X-Forwarded-For header of the request ("" = no such header)
 }
 
 // SvcC: the teamserver has a Service block and a live service client (tpx) registered these
@@ -66,6 +71,7 @@ type SvcC struct {
 type CaseC struct {
 	IDs []uint32 `json:"ids"` // universe of agent ids
 	Svc *SvcC    `json:"svc,omitempty"`
+	Cfg CfgC     `json:"cfg"`
 	Ops []OpC    `json:"ops"`
 }
 
@@ -75,7 +81,7 @@ var (
 	kindsC    = []string{"reg", "reg", "reg", "rereg", "rereg", "checkin", "cbcheckin", "cbcheckin", "reg0", "truncreg", "smbreg", "smbreg-mismatch", "markdead", "exitcb", "markalive"}
 	// with a service: the third-party operations, and more of the Demon operations that need TWO other parties (a Demon
 	// parent / sender plus the id of a third-party session), which are thin otherwise
-	kindsCSvc = append(append([]string{}, kindsC...), "tpreg", "tpreq", "tpreq", "smbreg", "smbreg", "smbreg-mismatch", "cbcheckin")
+	kindsCSvc = append(append([]string{}, kindsC...), "tpreg", "tpreq", "tpreq", "smbreg", "smbreg", "smbreg-mismatch", "cbcheckin", "tpreg", "tpreg", "tpreq")
 )
 
 func genMetaText(t *rapid.T, l string) string {
@@ -106,15 +112,20 @@ func genC(t *rapid.T) CaseC {
 	n := rapid.IntRange(2, 4).Draw(t, "nids")
 	seen := map[uint32]bool{}
 	for len(c.IDs) < n {
-		id := rapid.OneOf(rapid.SampledFrom([]uint32{1, 2, 0x7fffffff, 0x80000000, 0xfffffffe, 0xdeadbeef}), rapid.Uint32Range(1, 0xfffffffe)).Draw(t, "id")
+		id := rapid.OneOf(rapid.SampledFrom([]uint32{1, 2, 0x7fffffff, 0x80000000, 0xfffffffe, 0xdeadbeef, 0x0abc1234, 0x00c0ffee, 0x000000ab}), rapid.Uint32Range(1, 0xfffffffe)).Draw(t, "id")
 		if !seen[id] {
 			seen[id] = true
 			c.IDs = append(c.IDs, id)
 		}
 	}
+	// configuration / environment: default in about half of the histories
+	c.Cfg.TrustXFF = rapid.IntRange(0, 3).Draw(t, "trustxff") == 0
+	if rapid.IntRange(0, 2).Draw(t, "tzset") == 0 {
+		c.Cfg.TZ = rapid.SampledFrom(tzNames).Draw(t, "tz")
+	}
 	kinds := kindsC
-	if rapid.IntRange(0, 2).Draw(t, "svc") == 0 {
-		// a third of the histories: Service block, live service client, 1-2 registered third-party agent types and
+	if rapid.IntRange(0, 4).Draw(t, "svc") < 2 {
+		// a third to two fifths of the histories: Service block, live service client, 1-2 registered third-party agent types and
 		// 0-2 third-party sessions announced by the service before the first Demon operation - under ids of the SAME pool
 		kinds = kindsCSvc
 		c.Svc = &SvcC{}
@@ -127,7 +138,7 @@ func genC(t *rapid.T) CaseC {
 		}
 		first := rapid.IntRange(0, n-1).Draw(t, "tpslot")
 		for i, ns := 0, rapid.IntRange(0, 2).Draw(t, "ntpsessions"); i < ns; i++ {
-			c.Ops = append(c.Ops, OpC{Kind: "tpreg", Slot: (first + i) % n, TPType: rapid.IntRange(0, nt-1).Draw(t, "tptype"), Meta: genMetaC(t, fmt.Sprintf("tp%d_", i))})
+			c.Ops = append(c.Ops, OpC{Kind: "tpreg", Slot: (first + i) % n, TPType: rapid.IntRange(0, nt-1).Draw(t, "tptype"), Meta: genMetaC(t, fmt.Sprintf("tp%d_", i)), Repr: genRepr(t, fmt.Sprintf("tp%d_", i), true)})
 		}
 	}
 	k := rapid.IntRange(1, 14).Draw(t, "nops")
@@ -142,6 +153,12 @@ func genC(t *rapid.T) CaseC {
 		}
 		if c.Svc != nil {
 			op.TPType = rapid.IntRange(0, len(c.Svc.Types)-1).Draw(t, l+"tptype")
+			if op.Kind == "tpreg" || op.Kind == "tpreq" {
+				op.Repr = genRepr(t, l, false)
+			}
+		}
+		if op.Kind == "reg" || op.Kind == "rereg" {
+			op.XFF = rapid.SampledFrom(xffValues).Draw(t, l+"xff")
 		}
 		c.Ops = append(c.Ops, op)
 	}
@@ -192,16 +209,7 @@ type modelC struct {
 	haveExt bool
 	tp      bool   // a third-party session: announced by the service (AgentRegister), no Demon key
 	magic   uint32 // tp: the magic number of its agent type
-}
-
-// tpInfo is the RegisterInfo a service reports for a third-party agent with metadata m
-// (the keys agent.RegisterInfoToInstance reads; numbers travel as decimal strings).
-func tpInfo(m MetaC) map[string]any {
-	return map[string]any{"Hostname": m.Host, "Username": m.User, "Domain": m.Domain, "InternalIP": m.IP,
-		"Process Path": m.Path, "Process Name": m.Path[strings.LastIndex(m.Path, "\\")+1:], "Process Arch": "x64",
-		"Process ID": strconv.FormatUint(uint64(m.PID), 10), "Process Parent ID": strconv.FormatUint(uint64(m.PPID), 10), "Process Elevated": strconv.FormatUint(uint64(m.Elev&1), 10),
-		"OS Version": fmt.Sprintf("%d.%d.%d.%d.%d", m.OS[0], m.OS[1], m.OS[2], m.OS[3], m.OS[4]), "OS Build": strconv.FormatUint(uint64(m.OS[4]), 10), "OS Arch": "x64",
-		"SleepDelay": strconv.FormatUint(uint64(m.Sleep), 10)}
+	rec     tpRec  // tp: what the service reported
 }
 
 // tpTypes: the distinct third-party magic numbers of the case (never the Demon's).
@@ -217,6 +225,27 @@ func (c CaseC) tpTypes() []uint32 {
 		}
 		if !dup {
 			out = append(out, m)
+		}
+	}
+	return out
+}
+
+var (
+	knownOnceC sync.Once
+	knownSetC  map[string]bool
+)
+
+// knownOpenC: the open known findings of C03 (only used to keep process-killing inputs out while they are open).
+func knownOpenC() map[string]bool {
+	knownOnceC.Do(func() { knownSetC = svcx.KnownOpen("C03") })
+	return knownSetC
+}
+
+func sessionIDs(w *agx.World) []string {
+	var out []string
+	for _, a := range w.TS.Agents.Agents {
+		if a != nil {
+			out = append(out, a.NameID)
 		}
 	}
 	return out
@@ -255,6 +284,19 @@ func checkC(c CaseC) *core.Violation {
 			panic("infrastructure: " + err.Error())
 		}
 		defer w.Close()
+	}
+	// configuration / environment of the history
+	defer setLocal(c.Cfg.TZ)()
+	w.H.Config.BehindRedir = c.Cfg.TrustXFF // what Demon { TrustXForwardedFor } becomes on a HTTP listener (teamserver.go:257, listener.go:243)
+	post := func(body []byte, remote, xff string) (int, []byte) {
+		req := httptest.NewRequest(http.MethodPost, "/", bytes.NewReader(body))
+		req.RemoteAddr = remote
+		if xff != "" {
+			req.Header.Set("X-Forwarded-For", xff)
+		}
+		rr := httptest.NewRecorder()
+		w.H.GinEngine.ServeHTTP(rr, req)
+		return rr.Code, rr.Body.Bytes()
 	}
 	// one operator on a real websocket: NewSession events are broadcast, not retained
 	tap, err := tpx.NewTap(w.TS)
@@ -301,15 +343,14 @@ func checkC(c CaseC) *core.Violation {
 				if len(a.Encryption.AESKey) != 0 || len(a.Encryption.AESIv) != 0 {
 					return core.V("record|key-iv|third-party-session|after-"+kind, "step %d (%s): third-party session %08x holds key/iv %x/%x, its service reported none", step, kind, id, a.Encryption.AESKey, a.Encryption.AESIv)
 				}
-				i, mm := a.Info, m.meta
-				exe := mm.Path[strings.LastIndex(mm.Path, "\\")+1:]
+				i, mm := a.Info, m.rec
 				for _, p := range []struct {
 					n        string
 					got, exp interface{}
 				}{{"MagicValue", i.MagicValue, int(m.magic)}, {"Hostname", i.Hostname, mm.Host}, {"Username", i.Username, mm.User}, {"DomainName", i.DomainName, mm.Domain}, {"InternalIP", i.InternalIP, mm.IP},
-					{"ProcessPath", i.ProcessPath, mm.Path}, {"ProcessName", i.ProcessName, exe}, {"ProcessPID", i.ProcessPID, int(mm.PID)}, {"ProcessPPID", i.ProcessPPID, int(mm.PPID)}, {"SleepDelay", i.SleepDelay, int(mm.Sleep)}} {
+					{"ProcessPath", i.ProcessPath, mm.Path}, {"ProcessName", i.ProcessName, mm.Name}, {"ProcessPID", i.ProcessPID, mm.PID}, {"ProcessPPID", i.ProcessPPID, mm.PPID}, {"SleepDelay", i.SleepDelay, mm.Sleep}} {
 					if p.got != p.exp {
-						return core.V("record|metadata|third-party-session|"+p.n+"|after-"+kind, "step %d (%s): third-party session %08x records %s = %v, its service reported %v", step, kind, id, p.n, p.got, p.exp)
+						return core.V("record|metadata|third-party-session|"+p.n+"|after-"+kind, "step %d (%s): third-party session %08x records %s = %.200v, its service reported %.200v", step, kind, id, p.n, p.got, p.exp)
 					}
 				}
 				continue
@@ -363,9 +404,12 @@ func checkC(c CaseC) *core.Violation {
 		key, iv := keyFrom(op.KeySeed, op.ZeroKey)
 		remote := "10.9.8.7:5555"
 		ext := "10.9.8.7"
+		if c.Cfg.TrustXFF {
+			ext = op.XFF // http.go request(): behind a redirector the external address is what X-Forwarded-For says ("" without the header)
+		}
 		switch op.Kind {
 		case "reg":
-			code, resp := w.PostFrom(op.Meta.ref(id).InitPackage(id, key, iv), remote)
+			code, resp := post(op.Meta.ref(id).InitPackage(id, key, iv), remote, op.XFF)
 			if m, ok := model[id]; ok && m.tp {
 				// COLLISION: a Demon's DEMON_INIT under the id of a third-party session.  The id is taken: no second
 				// session, no NewSession event, the third-party session keeps what its service reported (HEAD answers
@@ -394,7 +438,7 @@ func checkC(c CaseC) *core.Violation {
 			}
 			// reconnect with different metadata/key: must not alter the session
 			m := model[id]
-			code, resp := w.PostFrom(op.Meta.ref(id).InitPackage(id, key, iv), remote)
+			code, resp := post(op.Meta.ref(id).InitPackage(id, key, iv), remote, op.XFF)
 			if m != nil && m.tp {
 				// COLLISION, as in "reg": nothing may change
 			} else if m != nil {
@@ -561,47 +605,83 @@ func checkC(c CaseC) *core.Violation {
 			} else {
 				return core.V("smb-register|no-session", "step %d: well-formed child registration %08x through parent %08x created %d sessions", si, id, parent, w.AgentsWithID(id))
 			}
-		case "tpreg":
-			// the service announces a third-party session (AgentRegister over the service websocket) under an id of the pool.
+		case "tpreg", "tpreq":
+			// tpreg: the service announces a third-party session (AgentRegister over the service websocket) under an id of the pool.
 			// Free id: the session exists afterwards and operators are told.  Id already held - by a Demon session (the
-			// OTHER direction of the collision) or by a third-party session: no two sessions share an id, so nothing changes
+			// OTHER direction of the collision) or by a third-party session: no two sessions share an id, so nothing changes.
+			// tpreq: a third-party agent's request arrives at the listener under an id of the pool (registered magic): it is
+			// relayed to the service together with the session the teamserver holds under that id; the service script registers
+			// the sender when there is none (the way havoc-py handlers do) and answers.  Under the id of a Demon session the
+			// service is shown that session and only answers: nothing changes.
+			// Either way the AgentRegister message is WRITTEN in the representation op.Repr says: id and magic spelled in any of
+			// the ways a handler may spell a hexadecimal number, Size as string / number / missing, RegisterInfo complete,
+			// with fields missing, with numbers, very long.  What the message means is HEAD's reading (ParseInt base 16): the
+			// id it denotes - whatever the spelling - is the id that must be free; a header that denotes no id or no magic is
+			// a registration that is refused and changes nothing.
 			if sc == nil {
 				continue
 			}
 			ty := types[((op.TPType%len(types))+len(types))%len(types)]
-			sc.RegisterSession(ty, id, tpInfo(op.Meta))
+			hdr, idV, magicV, idP, magicP, crashField := tpHeader(ty, id, op.Repr)
+			info, rec, crashInfo := tpInfoR(op.Meta, op.Repr)
+			willRegister := op.Kind == "tpreg" || model[id] == nil
+			if willRegister && (crashField != "" || crashInfo != "") {
+				// a JSON number where HEAD asserts a string: the service connection's goroutine panics, which ends the
+				// teamserver process.  While that finding is open the message is not sent (every shard would die on it)
+				sig, field := "crash|Havoc/pkg/service.(*Service).dispatch", crashField
+				if crashField == "" {
+					sig, field = "crash|Havoc/pkg/agent.RegisterInfoToInstance", crashInfo
+					if crashInfo == "OS Version" {
+						sig = "crash|Havoc/pkg/agent.getWindowsVersionString"
+					}
+				}
+				if knownOpenC()[sig] {
+					return core.V(sig, "step %d (%s): AgentRegister whose %s has a JSON type / shape the teamserver does not expect (not sent: open finding)", si, op.Kind, field)
+				}
+			}
+			before := len(w.TS.Agents.Agents)
+			if op.Kind == "tpreg" {
+				sc.SendAgentRegister(hdr, info)
+			} else {
+				sc.OnUnknownWith(info, func(sent map[string]any) map[string]any { return hdr })
+				n0 := sc.Relayed()
+				pl := []byte{op.KeySeed, 'r', 'e', 'q', byte(si), 0, 1, 2}
+				pk := make([]byte, 12, 20)
+				binary.BigEndian.PutUint32(pk[0:], uint32(8+len(pl)))
+				binary.BigEndian.PutUint32(pk[4:], ty)
+				binary.BigEndian.PutUint32(pk[8:], id)
+				pk = append(pk, pl...)
+				code, resp := w.PostFrom(pk, remote)
+				if code != 200 || sc.Relayed() != n0+1 || string(resp) != tpx.Tag+string(pl) {
+					return core.V("third-party|request|reply", "step %d: request of third-party agent %08x (registered magic %#x) answered %d / %q, relayed %d times; the service answered %q", si, id, ty, code, resp, sc.Relayed()-n0, tpx.Tag+string(pl))
+				}
+			}
 			if err := sc.Barrier(); err != nil {
 				panic("infrastructure: service script: " + err.Error())
 			}
-			if model[id] == nil {
-				add(id, &modelC{tp: true, magic: ty, meta: op.Meta})
+			if !willRegister {
+				break
 			}
-		case "tpreq":
-			// a third-party agent's request arrives at the listener under an id of the pool (registered magic): it is relayed to
-			// the service together with the session the teamserver holds under that id; the service script registers the sender
-			// when there is none (the way havoc-py handlers do) and answers.  Under the id of a Demon session the service is
-			// shown that session and only answers: nothing changes
-			if sc == nil {
-				continue
-			}
-			ty := types[((op.TPType%len(types))+len(types))%len(types)]
-			sc.OnUnknown(tpInfo(op.Meta))
-			n0 := sc.Relayed()
-			pl := []byte{op.KeySeed, 'r', 'e', 'q', byte(si), 0, 1, 2}
-			pk := make([]byte, 12, 20)
-			binary.BigEndian.PutUint32(pk[0:], uint32(8+len(pl)))
-			binary.BigEndian.PutUint32(pk[4:], ty)
-			binary.BigEndian.PutUint32(pk[8:], id)
-			pk = append(pk, pl...)
-			code, resp := w.PostFrom(pk, remote)
-			if err := sc.Barrier(); err != nil {
-				panic("infrastructure: service script: " + err.Error())
-			}
-			if code != 200 || sc.Relayed() != n0+1 || string(resp) != tpx.Tag+string(pl) {
-				return core.V("third-party|request|reply", "step %d: request of third-party agent %08x (registered magic %#x) answered %d / %q, relayed %d times; the service answered %q", si, id, ty, code, resp, sc.Relayed()-n0, tpx.Tag+string(pl))
-			}
-			if model[id] == nil {
-				add(id, &modelC{tp: true, magic: ty, meta: op.Meta})
+			idN, idOK, _ := denotes(idV, idP)
+			mN, mOK, _ := denotes(magicV, magicP)
+			switch {
+			case !idOK:
+				if len(w.TS.Agents.Agents) != before {
+					return core.V("register|third-party|header-names-no-id|accepted", "step %d (%s): an AgentRegister whose AgentID is %#v (present=%v) - no hexadecimal number by the teamserver's own reading - created a session (%d -> %d sessions; ids now %v)", si, op.Kind, idV, idP, before, len(w.TS.Agents.Agents), sessionIDs(w))
+				}
+			case !mOK:
+				if len(w.TS.Agents.Agents) != before {
+					return core.V("register|third-party|header-names-no-magic|accepted", "step %d (%s): an AgentRegister for %08x whose MagicValue is %#v (present=%v) - no hexadecimal number by the teamserver's own reading - created a session (%d -> %d sessions)", si, op.Kind, id, magicV, magicP, before, len(w.TS.Agents.Agents))
+				}
+			case idN != id || mN != ty:
+				panic(fmt.Sprintf("harness: spelling %#v / %#v denotes %08x / %#x, meant %08x / %#x", idV, magicV, idN, mN, id, ty))
+			case model[id] == nil:
+				if (crashField != "" || crashInfo != "") && len(w.TS.Agents.Agents) == before {
+					// a field of an unexpected JSON type / shape (and a teamserver that survives it): the message may be
+					// refused as a whole - nothing changes - or taken with the values it carries
+					break
+				}
+				add(id, &modelC{tp: true, magic: ty, rec: rec})
 			}
 		}
 		if v := invariant(si, op.Kind); v != nil {
@@ -662,7 +742,35 @@ func collisionsC(c CaseC) []string {
 			if h == "tp" {
 				out = append(out, "tp:session-"+op.Kind)
 			}
-		case "tpreg":
+		case "tpreg", "tpreq":
+			// does the message, as written, register anything?
+			_, idV, magicV, idP, magicP, crashField := tpHeader(1, id, op.Repr)
+			_, _, crashInfo := tpInfoR(op.Meta, op.Repr)
+			_, idOK, _ := denotes(idV, idP)
+			_, mOK, _ := denotes(magicV, magicP)
+			if op.Kind == "tpreg" || h == "" {
+				out = append(out, op.Repr.labels(op.Kind)...)
+				if crashField != "" || crashInfo != "" {
+					out = append(out, "tp:register-with-number-for-string")
+					continue
+				}
+				if !idOK || !mOK {
+					out = append(out, "tp:register-refused(header-names-no-id-or-no-magic)")
+					continue
+				}
+			}
+			if op.Kind == "tpreq" {
+				switch h {
+				case "":
+					holder[id] = "tp"
+					out = append(out, "tp:request-of-unknown-agent-registers-it")
+				case "demon":
+					out = append(out, "collide:third-party-request-under-id-of-demon-session")
+				case "tp":
+					out = append(out, "tp:request-of-known-third-party-session")
+				}
+				continue
+			}
 			switch h {
 			case "":
 				holder[id] = "tp"
@@ -676,16 +784,6 @@ func collisionsC(c CaseC) []string {
 			case "tp":
 				out = append(out, "collide:AgentRegister-under-id-of-third-party-session")
 			}
-		case "tpreq":
-			switch h {
-			case "":
-				holder[id] = "tp"
-				out = append(out, "tp:request-of-unknown-agent-registers-it")
-			case "demon":
-				out = append(out, "collide:third-party-request-under-id-of-demon-session")
-			case "tp":
-				out = append(out, "tp:request-of-known-third-party-session")
-			}
 		}
 	}
 	return out
@@ -697,6 +795,25 @@ func classifyC(c CaseC) core.Class {
 	for _, op := range c.Ops {
 		ks[op.Kind] = true
 		cl.Labels = append(cl.Labels, "op:"+op.Kind)
+	}
+	if c.Cfg.TrustXFF {
+		cl.Labels = append(cl.Labels, "cfg:TrustXForwardedFor=on")
+		for _, op := range c.Ops {
+			if op.Kind == "reg" || op.Kind == "rereg" {
+				x := op.XFF
+				if x == "" {
+					x = "header-absent"
+				}
+				cl.Labels = append(cl.Labels, "cfg:TrustXForwardedFor=on|registration-with-X-Forwarded-For="+x)
+			}
+		}
+	} else {
+		cl.Labels = append(cl.Labels, "cfg:TrustXForwardedFor=default")
+	}
+	if c.Cfg.TZ != "" {
+		cl.Labels = append(cl.Labels, "env:time.Local="+c.Cfg.TZ)
+	} else {
+		cl.Labels = append(cl.Labels, "env:time.Local=default")
 	}
 	coll := map[string]bool{}
 	if c.Svc != nil {
@@ -730,9 +847,11 @@ func classifyC(c CaseC) core.Class {
 func TestC03c(t *testing.T) {
 	core.Run(t, core.Spec[CaseC]{
 		Property: "C03", Sub: "c",
-		Rule: "histories of 1-14 operations over 2-4 agent ids (incl. >=2^31) on the real Teamserver + sqlite + HTTP listener engine: registration, DEMON_INIT for an existing id (alive, marked dead, exited), check-in, operator mark dead/alive, exit callback, COMMAND_CHECKIN callback naming the sender or another id (same or new key), registration with header id 0, truncated registration, a relayed child registration whose encrypted part names another id than its header, registration of a child through SMB_CONNECT; after every step the session table is compared with a model (ids exactly the registered ones and pairwise distinct, key/IV/metadata as sent, registration reply = id under the session key). Non-trivial: history with a re-registration, CHECKIN callback, header-0 registration or SMB registration; distinct = (set of op kinds, length bucket). Added: every history has one operator on a real websocket and the ids of the NewSession events it received must be exactly the ids sessions were created for, in order (told exactly when a session is created). A third of the histories run in a teamserver with a Service block: a live service client on the real service websocket registered 1-2 third-party agent types (canonical magic strings) and announces 0-2 third-party sessions (AgentRegister) before the first Demon operation, under ids of the SAME 2-4 id pool; further operations: tpreg (the service announces a third-party session under a pool id - free, held by a Demon session, held by a third-party session) and tpreq (a third-party agent's request with the registered magic under a pool id through the listener: relayed once, answered with the service's bytes; the service script registers the sender when the teamserver shows it no session, as havoc-py handlers do). Collisions (labels collide:*): DEMON_INIT / re-registration, check-in, CHECKIN-callback batch and EXIT-callback batch of a Demon with its own key under the id of a third-party session, SMB_CONNECT child registration under such an id, CHECKIN callback / header-0 registration / relayed child registration naming such an id, operator mark dead/alive of a third-party session; AgentRegister and third-party requests under the id of a Demon session. Oracle for them (HEAD's handleDemonAgent / SMB_CONNECT / handleServiceAgent behaviour, which is what the property demands): an id that is held is never given a second session, no NewSession event without a new session, the third-party session keeps exactly what its service reported (magic, host, user, domain, ip, process path/name/pid/ppid, sleep) and never gets a Demon key/IV, Demon sessions keep theirs; a refused registration changes nothing (replies to Demon traffic under a third-party id are not judged). Non-trivial also: a history with a collision; distinct gets (service, #collision kinds capped at 2)",
+		Rule: "histories of 1-14 operations over 2-4 agent ids (incl. >=2^31) on the real Teamserver + sqlite + HTTP listener engine: registration, DEMON_INIT for an existing id (alive, marked dead, exited), check-in, operator mark dead/alive, exit callback, COMMAND_CHECKIN callback naming the sender or another id (same or new key), registration with header id 0, truncated registration, a relayed child registration whose encrypted part names another id than its header, registration of a child through SMB_CONNECT; after every step the session table is compared with a model (ids exactly the registered ones and pairwise distinct, key/IV/metadata as sent, registration reply = id under the session key). Non-trivial: history with a re-registration, CHECKIN callback, header-0 registration or SMB registration; distinct = (set of op kinds, length bucket). Added: every history has one operator on a real websocket and the ids of the NewSession events it received must be exactly the ids sessions were created for, in order (told exactly when a session is created). A third of the histories run in a teamserver with a Service block: a live service client on the real service websocket registered 1-2 third-party agent types (canonical magic strings) and announces 0-2 third-party sessions (AgentRegister) before the first Demon operation, under ids of the SAME 2-4 id pool; further operations: tpreg (the service announces a third-party session under a pool id - free, held by a Demon session, held by a third-party session) and tpreq (a third-party agent's request with the registered magic under a pool id through the listener: relayed once, answered with the service's bytes; the service script registers the sender when the teamserver shows it no session, as havoc-py handlers do). Collisions (labels collide:*): DEMON_INIT / re-registration, check-in, CHECKIN-callback batch and EXIT-callback batch of a Demon with its own key under the id of a third-party session, SMB_CONNECT child registration under such an id, CHECKIN callback / header-0 registration / relayed child registration naming such an id, operator mark dead/alive of a third-party session; AgentRegister and third-party requests under the id of a Demon session. Oracle for them (HEAD's handleDemonAgent / SMB_CONNECT / handleServiceAgent behaviour, which is what the property demands): an id that is held is never given a second session, no NewSession event without a new session, the third-party session keeps exactly what its service reported (magic, host, user, domain, ip, process path/name/pid/ppid, sleep) and never gets a Demon key/IV, Demon sessions keep theirs; a refused registration changes nothing (replies to Demon traffic under a third-party id are not judged). Non-trivial also: a history with a collision; distinct gets (service, #collision kinds capped at 2). Added (representation and configuration): every AgentRegister message of the service script - sent directly (tpreg) or for the unknown sender of a relayed request (tpreq) - is WRITTEN in a drawn representation: AgentID as %08x / %x without padding (pool has ids with leading zero nibbles: 1, 2, 0xab, 0xc0ffee, 0xabc1234) / upper case / upper case unpadded / mixed case / 4 extra leading zeros / leading '+' / 0x prefix / surrounding blanks / empty / key missing / JSON number; MagicValue as %x / %08x / upper / mixed / extra zeros / '+' / 0x / blanks / empty / missing / number; Size as decimal string / JSON number / missing / non-decimal string; RegisterInfo complete / any subset of its 14 fields missing / SleepDelay as JSON number / another field as JSON number / host, user and path up to ~90 KB / OS Version with two numbers. What a header denotes is HEAD's own reading, strconv.ParseInt(s, 16, 64) from the standard library: the NUMERIC id it denotes must be free or nothing changes (no two sessions per numeric id whatever the spelling), the session records the denoted magic and exactly the reported fields (missing = zero value); a header that denotes no id or no magic, or a message with a field of a JSON type / shape the teamserver does not read (and survives), registers nothing (for a number in place of a string in RegisterInfo / Size: either nothing, or the values carried). The sessions announced before the history starts use only representations that register. Configuration / environment per history: Demon{TrustXForwardedFor} on in a quarter (HTTPConfig.BehindRedir): registrations carry X-Forwarded-For absent / one address / a list / IPv6, and the recorded ExternalIP must be the header value (\"\" when absent) instead of the peer address; time.Local set to +05:30 / -08:00 / +12:00 / +14:00 / -03:30 in a third (restored after the case)",
 		Gen:   genC, Check: checkC, Classify: classifyC,
 		Assumptions: []string{
+			"while the findings crash|Havoc/pkg/service.(*Service).dispatch, crash|Havoc/pkg/agent.RegisterInfoToInstance and crash|Havoc/pkg/agent.getWindowsVersionString are open, a message of those classes is NOT sent (the panic is in a goroutine of the teamserver and would end the shard): the history ends there with the known signature; likewise a history ends at the first header that denotes no id / no magic while register|third-party|header-names-no-id|accepted / ...no-magic|accepted are open (HEAD registers it under id / magic 0). About a quarter of the service histories end early that way until the repair is in",
+			"ids and magic values outside 32 bit and negative ones ('-1') are not generated",
 			"the service stays connected for the whole history and answers every relayed request (disconnecting services are C01(d)'s subject)",
 			"collide:* labels are computed on an abstract replay of the history (a history that ends early in a violation would have its later labels counted but not exercised)",
 		},
